@@ -181,9 +181,14 @@ def run_job(spec):
         elif spec.get("observer"):
             from .i9 import make_observer
             observer = make_observer(sc)
-        r = engine_t.explore(sc, root, bound=spec.get("bound"), observer=observer,
-                             max_exec=spec.get("max_exec"), time_cap=spec.get("time_cap"),
-                             reduce=spec.get("reduce", True))
+        if spec.get("engine") == "L":
+            from . import engine_l
+            r = engine_l.explore(sc, root, spec["first"], spec.get("gran", "line"), tuple(spec.get("chunk", (0, 1))),
+                                 time_cap=spec.get("time_cap"))
+        else:
+            r = engine_t.explore(sc, root, bound=spec.get("bound"), observer=observer,
+                                 max_exec=spec.get("max_exec"), time_cap=spec.get("time_cap"),
+                                 reduce=spec.get("reduce", True))
         image_violations = []
         n_images = 0
         if isinstance(observer, ImageCollector):
@@ -207,13 +212,14 @@ def run_job(spec):
         for vd in verdicts:
             if vd["verdict"] == "violation":
                 for _ in range(2):
-                    ex = engine_t.run_execution(sc, root, vd["schedule"], set(), explore=False, bound=None)
+                    ex = run_schedule(sc, root, vd["schedule"])
                     if repr(sc.terminal(ex, root)) != vd["termkey"] and "DEADLOCK" not in vd["termkey"]:
                         raise common.HarnessError("schedule of %s does not replay deterministically" % spec["name"])
         for vd in verdicts:
             del vd["termkey"]
         seq = cache.get(frozenset(), {})
-        return {"name": spec["name"], "spec": spec, "executions": r["executions"], "states": r["states"],
+        return {"name": spec.get("label", spec["name"]), "spec": spec, "executions": r["executions"], "states": r["states"],
+                "preemption_points": r.get("preemption_points"), "void_preemptions": r.get("void_preemptions"),
                 "transitions": r["transitions"], "terminals": len(r["terminals"]), "verdicts": verdicts,
                 "sequential_terminals": len(seq), "capped": r["capped"], "wall": time.time() - t0,
                 "passes": r.get("passes"), "executions_all_passes": r.get("executions_all_passes"),
@@ -222,14 +228,36 @@ def run_job(spec):
                 "step_violations": [(v, ch) for v, ch in r["step_violations"][:20]],
                 "n_step_violations": len(r["step_violations"])}
     except common.SetupFailure as e:
-        return {"name": spec["name"], "spec": spec, "setup_failure": str(e)}
+        return {"name": spec.get("label", spec["name"]), "spec": spec, "setup_failure": str(e)}
     except common.HarnessError as e:
-        return {"name": spec["name"], "spec": spec, "harness_error": str(e)}
+        return {"name": spec.get("label", spec["name"]), "spec": spec, "harness_error": str(e)}
     except Exception:  # noqa: BLE001
         tb = traceback.format_exc()
         if (common.REPO + "/src/") in tb:
             return {"name": spec["name"], "spec": spec, "setup_failure": "exception inside the package: " + tb[-600:]}
         return {"name": spec["name"], "spec": spec, "harness_error": tb[-1500:]}
+
+
+def run_schedule(sc, root, schedule, trace_out=None):
+    """Re-execute one recorded schedule of either engine."""
+    if schedule and schedule[0] == "L":
+        from . import engine_l
+        return engine_l.run_one(sc, root, schedule[1], schedule[2], schedule[3])
+    return engine_t.run_execution(sc, root, schedule, set(), explore=False, bound=None, trace_out=trace_out)
+
+
+def line_level(spec, gran="line", shares=4):
+    """Engine-L jobs for a two-thread scenario: each thread as the one that is pre-empted, the pre-emption points
+    dealt out over `shares` jobs.  The scenario name is kept (signatures coincide with engine T's)."""
+    out = []
+    for first in sorted(spec["threads"]):
+        for k in range(shares):
+            d = dict(spec)
+            d.update({"engine": "L", "gran": gran, "first": first, "chunk": [k, shares],
+                      "label": "%s [%s-level, one pre-emption of %s, share %d/%d]" % (spec["name"], gran, first, k + 1, shares)})
+            d.pop("bound", None)
+            out.append(d)
+    return out
 
 
 def liveness_verdict(term):
